@@ -586,3 +586,480 @@ Proof.
     f_equal. rewrite <- ensure_nl_root. f_equal. rewrite map_app, map_map. reflexivity.
   - intros g Hg. apply Hpf. apply HIn. apply (sort_opt_In _ _ _ Hg).
 Qed.
+
+(* ---------------------------------------------------------------- content *)
+Lemma field_value_lines f : field_value f = join [LF] (value_lines (f_first f) (map snd (f_cont f))).
+Proof. unfold field_value, value_lines. destruct (f_first f); reflexivity. Qed.
+
+Lemma map_snd_indent n ls : map snd (indent_lines n ls) = ls.
+Proof. unfold indent_lines. rewrite map_map. cbn [snd]. apply map_id. Qed.
+
+Lemma rebuild_field_name c name w first conts : f_name (rebuild_field c name w first conts) = name.
+Proof.
+  unfold rebuild_field. destruct (fits c name w first && is_nil conts); [reflexivity|].
+  destruct (value_lines first conts); [reflexivity|].
+  destruct (c_iel c && negb (is_nil conts) && negb (starts_with_hash l)); reflexivity.
+Qed.
+
+Lemma rebuild_field_value c name w first conts : forallb nonempty_line conts = true ->
+  field_value (rebuild_field c name w first conts) = join [LF] (value_lines first conts).
+Proof.
+  intros Hne. unfold rebuild_field. destruct (fits c name w first && is_nil conts) eqn:Ef.
+  - apply andb_true_iff in Ef. destruct Ef as [_ En]. destruct conts; [|discriminate].
+    rewrite field_value_lines. reflexivity.
+  - destruct (value_lines first conts) as [|l1 rest] eqn:El; [reflexivity|].
+    pose proof (value_lines_head_nonempty first conts l1 rest Hne El) as Hl1.
+    destruct (c_iel c && negb (is_nil conts) && negb (starts_with_hash l1)).
+    + rewrite field_value_lines. cbn [f_first f_cont]. rewrite map_snd_indent. reflexivity.
+    + rewrite field_value_lines. cbn [f_first f_cont]. rewrite map_snd_indent. unfold value_lines.
+      destruct l1; [contradiction|reflexivity].
+Qed.
+
+Theorem a_ws_field_pair c fmt f : conts_nonempty f = true -> fmt_lexes fmt f ->
+  field_pair (a_ws_field c fmt f) = a_pair fmt f.
+Proof.
+  intros Hne Hf. unfold field_pair, a_pair, a_ws_field, a_value. destruct fmt as [g|].
+  - cbn [fmt_lexes] in Hf. cbv zeta in Hf.
+    destruct (parse_value (g (f_name f) (value_text (field_ws0 f) (f_first f) (map snd (f_cont f))))) as [[w first] conts].
+    destruct Hf as [_ Hn]. rewrite rebuild_field_name, (rebuild_field_value _ _ _ _ _ Hn). reflexivity.
+  - rewrite rebuild_field_name, (rebuild_field_value _ _ _ _ _ (conts_nonempty_map f Hne)), <- field_value_lines. reflexivity.
+Qed.
+
+Lemma group_items_fields its : forall cur, map snd (fst (group_items its cur)) = fields_of its.
+Proof.
+  induction its as [|it r IH]; intros cur; [reflexivity|]. destruct it as [f|c nl]; cbn [group_items fields_of flat_map].
+  - specialize (IH []). destruct (group_items r []) as [gs tr]. cbn [fst map snd app] in *. rewrite IH. reflexivity.
+  - apply IH.
+Qed.
+
+Lemma item_pairs_ungroup gs tr : flat_map item_pairs (ungroup gs tr) = map (fun g => field_pair (snd g)) gs.
+Proof.
+  unfold ungroup. rewrite flat_map_app.
+  replace (flat_map item_pairs (map comment_item tr)) with (@nil (str * str))
+    by (induction tr as [|x l IHl]; [reflexivity|exact IHl]).
+  rewrite app_nil_r. induction gs as [|g r IH]; [reflexivity|]. cbn [flat_map map]. rewrite flat_map_app, IH.
+  replace (flat_map item_pairs (map comment_item (fst g) ++ [IField (snd g)])) with [field_pair (snd g)]; [reflexivity|].
+  rewrite flat_map_app. cbn [flat_map item_pairs app].
+  induction (fst g) as [|x l IHl]; [reflexivity|exact IHl].
+Qed.
+
+Lemma sort_groups_fields ecmp (gs : list (list comment * field)) :
+  map snd (sort_opt (option_map on_field ecmp) gs) = sort_opt (option_map on_pair ecmp) (map snd gs).
+Proof.
+  symmetry. apply sort_opt_map. destruct ecmp as [b|]; cbn [option_map]; [|exact I]. intros x y. reflexivity.
+Qed.
+
+Theorem a_ws_items_pairs c ecmp fmt its : items_ok fmt its ->
+  flat_map item_pairs (a_ws_items c ecmp fmt its) = spec_para ecmp fmt its.
+Proof.
+  intros Hok. unfold a_ws_items, spec_para. pose proof (group_items_In its []) as HIn.
+  pose proof (group_items_fields its []) as Hf.
+  destruct (group_items its []) as [gs tr]. cbn [fst snd] in *.
+  rewrite item_pairs_ungroup, map_map. cbn [snd]. rewrite <- Hf, <- sort_groups_fields, map_map.
+  apply map_ext_in. intros g Hg. destruct (Hok (snd g) (HIn g (sort_opt_In _ _ _ Hg))) as (_ & Hc & Hl).
+  apply a_ws_field_pair; assumption.
+Qed.
+
+(* without a formatter the new content is a function of the old content alone *)
+Lemma spec_para_nofmt ecmp its : spec_para ecmp None its = sort_opt ecmp (flat_map item_pairs its).
+Proof.
+  unfold spec_para. replace (flat_map item_pairs its) with (map field_pair (fields_of its)).
+  - symmetry. apply sort_opt_map. destruct ecmp; cbn [option_map]; [|exact I]. intros x y. reflexivity.
+  - induction its as [|it r IH]; [reflexivity|]. destruct it; cbn [fields_of flat_map item_pairs app map]; [f_equal|]; exact IH.
+Qed.
+
+Definition paras_of (l : ldocl) : list (list item) :=
+  flat_map (fun b => match b with LPara its => [its] | _ => [] end) l.
+Definition on_items (cmp : para_cmp) (a b : list item) : comparison :=
+  cmp (flat_map item_pairs a) (flat_map item_pairs b).
+
+Lemma group_blocks_paras l : forall cur, map snd (fst (group_blocks l cur)) = paras_of l.
+Proof.
+  induction l as [|b r IH]; intros cur; [reflexivity|]. destruct b as [|c nl|its]; cbn [group_blocks paras_of flat_map app].
+  - apply IH.
+  - apply IH.
+  - specialize (IH []). destruct (group_blocks r []) as [gs tr]. cbn [fst map snd] in *. rewrite IH. reflexivity.
+Qed.
+
+Lemma lcontent_comments cs : lcontent (map comment_block cs) = [].
+Proof. induction cs as [|x l IH]; [reflexivity|exact IH]. Qed.
+
+Lemma lcontent_emit_blocks gs : forall first, lcontent (emit_blocks first gs) = map (fun g => flat_map item_pairs (snd g)) gs.
+Proof.
+  induction gs as [|g r IH]; intros first; [reflexivity|]. cbn [emit_blocks map].
+  rewrite !lcontent_app, lcontent_comments. replace (lcontent (if first then [] else [LBlank])) with (@nil (list (str * str))) by (destruct first; reflexivity).
+  cbn [app]. change (LPara (snd g) :: emit_blocks false r) with ([LPara (snd g)] ++ emit_blocks false r).
+  rewrite lcontent_app, IH. reflexivity.
+Qed.
+
+Theorem a_ws_doc_content pcmp pf l :
+  lcontent (a_ws_doc pcmp pf l) =
+  map (fun its => flat_map item_pairs (pf its)) (sort_opt (option_map on_items pcmp) (paras_of l)).
+Proof.
+  unfold a_ws_doc. pose proof (group_blocks_paras l []) as Hp.
+  destruct (group_blocks l []) as [gs tr]. cbn [fst] in Hp.
+  rewrite lcontent_terminate_doc, lcontent_app, lcontent_comments, app_nil_r, lcontent_emit_blocks, map_map. cbn [snd].
+  rewrite <- Hp.
+  assert (E : sort_opt (option_map on_items pcmp) (map snd gs) = map snd (sort_opt (option_map on_para pcmp) gs)).
+  { apply sort_opt_map. destruct pcmp; cbn [option_map]; [|exact I]. intros x y. reflexivity. }
+  rewrite E, map_map. apply map_ext. intros g. apply pairs_terminate_last.
+Qed.
+
+(* ---------------------------------------------------------------- well-formedness of the result *)
+Lemma cont_ok_canon i t : cont_ok (i, t) = (match i with [] => false | _ => ws_ok i end) && canon_cont t.
+Proof. unfold cont_ok, canon_cont. rewrite andb_assoc. reflexivity. Qed.
+
+Lemma spaces_ok n : (n =? 0)%N = false -> cont_ok (spaces n, []) = false /\ forall t, cont_ok (spaces n, t) = canon_cont t.
+Proof.
+  intros Hn. assert (E : (match spaces n with [] => false | _ => ws_ok (spaces n) end) = true).
+  { unfold spaces. apply N.eqb_neq in Hn. destruct (N.to_nat n) as [|k] eqn:Ek; [lia|].
+    cbn [repeat]. unfold ws_ok. cbn [forallb]. apply andb_true_iff. split; [reflexivity|].
+    clear. induction k as [|k IH]; [reflexivity|]. cbn [repeat forallb]. rewrite IH. reflexivity. }
+  split; [rewrite cont_ok_canon, E; reflexivity|]. intros t. rewrite cont_ok_canon, E. reflexivity.
+Qed.
+
+Lemma forallb_cont_ok_indent n ls : (n =? 0)%N = false ->
+  forallb cont_ok (indent_lines n ls) = forallb canon_cont ls.
+Proof.
+  intros Hn. unfold indent_lines. induction ls as [|t r IH]; [reflexivity|]. cbn [map forallb].
+  rewrite IH. f_equal. apply (spaces_ok n Hn).
+Qed.
+
+Lemma canon_cont_first_ok t : canon_cont t = true -> first_ok t = true.
+Proof.
+  unfold canon_cont, first_ok. intros H. apply andb_true_iff in H. destruct H as [H1 H2]. rewrite H1. cbn [andb].
+  destruct t; [discriminate|]. apply andb_true_iff in H2. destruct H2 as [H2 _]. exact H2.
+Qed.
+
+Lemma canon_cont_nonempty ls : forallb canon_cont ls = true -> forallb nonempty_line ls = true.
+Proof.
+  induction ls as [|t r IH]; [reflexivity|]. cbn [forallb]. intros H. apply andb_true_iff in H. destruct H as [Ht Hr].
+  rewrite (IH Hr), andb_true_r. unfold canon_cont in Ht. apply andb_true_iff in Ht. destruct Ht as [_ Ht]. destruct t; [discriminate|reflexivity].
+Qed.
+
+Lemma width_nonzero c name : ind_ok c = true -> valid_name name = true -> (width c name =? 0)%N = false.
+Proof.
+  intros Hi Hn. unfold width, ind_ok in *. destruct (c_ind c); [|apply negb_true_iff; exact Hi].
+  apply utf8_size_pos. destruct name; [discriminate|discriminate].
+Qed.
+
+Theorem wf_rebuild_field c name w first conts more :
+  ind_ok c = true -> valid_name name = true -> ws_ok w = true -> first_ok first = true ->
+  forallb canon_cont conts = true ->
+  wf_field (rebuild_field c name w first conts) more = true.
+Proof.
+  intros Hi Hn Hw Hf Hc. pose proof (width_nonzero c name Hi Hn) as Hwd.
+  unfold rebuild_field. destruct (fits c name w first && is_nil conts) eqn:Ef.
+  - apply andb_true_iff in Ef. destruct Ef as [_ En]. destruct conts; [|discriminate].
+    unfold wf_field. cbn [f_name f_ws f_first f_cont f_nl forallb]. rewrite Hn, Hw, Hf. reflexivity.
+  - destruct (value_lines first conts) as [|l1 rest] eqn:El.
+    + unfold wf_field. cbn [f_name f_ws f_first f_cont f_nl forallb]. rewrite Hn. reflexivity.
+    + assert (Hl : first_ok l1 = true /\ forallb canon_cont rest = true /\ (starts_with_hash l1 = false -> canon_cont l1 = true)).
+      { unfold value_lines in El. destruct first as [|b first'].
+        - subst conts. cbn [forallb] in Hc. apply andb_true_iff in Hc. destruct Hc as [H1 H2].
+          split; [apply canon_cont_first_ok; exact H1|]. split; [exact H2|intros _; exact H1].
+        - injection El as <- <-. split; [exact Hf|]. split; [exact Hc|].
+          intros Hh. unfold first_ok in Hf. unfold canon_cont. apply andb_true_iff in Hf. destruct Hf as [H1 H2]. rewrite H1.
+          cbn [andb]. rewrite H2. cbn [starts_with_hash] in Hh. rewrite Hh. reflexivity. }
+      destruct Hl as (Hl1 & Hrest & Hh).
+      destruct (c_iel c && negb (is_nil conts) && negb (starts_with_hash l1)) eqn:Ed.
+      * apply andb_true_iff in Ed. destruct Ed as [_ Ed]. apply negb_true_iff in Ed.
+        unfold wf_field. cbn [f_name f_ws f_first f_cont f_nl]. rewrite Hn.
+        rewrite (forallb_cont_ok_indent _ _ Hwd). cbn [forallb]. rewrite (Hh Ed), Hrest. reflexivity.
+      * unfold wf_field. cbn [f_name f_ws f_first f_cont f_nl]. rewrite Hn, Hl1.
+        rewrite (forallb_cont_ok_indent _ _ Hwd), Hrest. reflexivity.
+Qed.
+
+(* the parts of a well-formed field *)
+Lemma wf_field_parts f m : wf_field f m = true ->
+  valid_name (f_name f) = true /\ ws_ok (f_ws f) = true /\ first_ok (f_first f) = true /\
+  forallb canon_cont (map snd (f_cont f)) = true.
+Proof.
+  unfold wf_field. intros H. repeat (apply andb_true_iff in H; let X := fresh "W" in destruct H as [H X]).
+  repeat split; try assumption.
+  clear - W0. induction (f_cont f) as [|[i t] r IH]; [reflexivity|]. cbn [forallb map snd] in *.
+  apply andb_true_iff in W0. destruct W0 as [H1 H2]. rewrite (IH H2), andb_true_r.
+  rewrite cont_ok_canon in H1. apply andb_true_iff in H1. destruct H1 as [_ H1]. exact H1.
+Qed.
+
+Lemma ws_ok_field_ws0 f : ws_ok (f_ws f) = true -> ws_ok (field_ws0 f) = true.
+Proof. unfold field_ws0. destruct (f_first f); [destruct (f_cont f); [reflexivity|]|]; intros H; exact H. Qed.
+
+Lemma parse_value_ws_ok o : ws_ok (fst (fst (parse_value o))) = true.
+Proof.
+  unfold parse_value. destruct (span is_indent o) as [w r] eqn:E.
+  pose proof (span_all _ _ _ _ E) as Hw. destruct (split_lf r); exact Hw.
+Qed.
+
+Theorem wf_a_ws_field c fmt f m more :
+  ind_ok c = true -> wf_field f m = true -> fmt_shaped_on fmt f = true ->
+  wf_field (a_ws_field c fmt f) more = true.
+Proof.
+  intros Hi Hwf Hs. destruct (wf_field_parts f m Hwf) as (Hn & Hw & Hf & Hc).
+  unfold a_ws_field. destruct fmt as [g|].
+  - cbn [fmt_shaped_on] in Hs. unfold shaped in Hs.
+    pose proof (parse_value_ws_ok (g (f_name f) (value_text (field_ws0 f) (f_first f) (map snd (f_cont f))))) as Hpw.
+    destruct (parse_value (g (f_name f) (value_text (field_ws0 f) (f_first f) (map snd (f_cont f))))) as [[w first] conts].
+    cbn [fst] in Hpw. apply andb_true_iff in Hs. destruct Hs as [Hs _]. apply andb_true_iff in Hs. destruct Hs as [H1 H2].
+    apply wf_rebuild_field; assumption.
+  - apply wf_rebuild_field; try assumption. apply ws_ok_field_ws0. exact Hw.
+Qed.
+
+(* ---- items ---- *)
+Lemma wf_items_app_intro a b more : wf_items a true = true -> wf_items b more = true -> wf_items (a ++ b) more = true.
+Proof.
+  intros Ha Hb. destruct b as [|x b'].
+  - rewrite app_nil_r. apply (wf_items_mono a true more Ha). intros _. reflexivity.
+  - rewrite wf_items_app by discriminate. rewrite Ha, Hb. reflexivity.
+Qed.
+
+Lemma wf_items_app_elim a b more : b <> [] -> wf_items (a ++ b) more = true -> wf_items a true = true /\ wf_items b more = true.
+Proof. intros Hb H. rewrite wf_items_app in H by exact Hb. apply andb_true_iff in H. exact H. Qed.
+
+Lemma group_items_wf its : forall cur more, wf_items (map comment_item cur ++ its) more = true ->
+  (forall g, In g (fst (group_items its cur)) ->
+     wf_items (map comment_item (fst g)) true = true /\ exists m, wf_field (snd g) m = true) /\
+  wf_items (map comment_item (snd (group_items its cur))) more = true.
+Proof.
+  induction its as [|it r IH]; intros cur more H.
+  - cbn [group_items fst snd]. rewrite app_nil_r in H. split; [intros g []|exact H].
+  - destruct it as [f|c nl]; cbn [group_items].
+    + apply wf_items_app_elim in H; [|discriminate]. destruct H as [Hcur Hr].
+      rewrite wf_items_cons in Hr. apply andb_true_iff in Hr. destruct Hr as [Hf Hr].
+      specialize (IH [] more Hr). destruct (group_items r []) as [gs tr]. cbn [fst snd] in *. destruct IH as [IH1 IH2].
+      split; [|exact IH2]. intros g [<-|Hg]; [|apply IH1; exact Hg]. cbn [fst snd]. split; [exact Hcur|eexists; exact Hf].
+    + apply IH. rewrite map_app, <- app_assoc. exact H.
+Qed.
+
+Lemma wf_items_ungroup gs tr more :
+  (forall g, In g gs -> wf_items (map comment_item (fst g)) true = true /\ wf_field (snd g) true = true) ->
+  wf_items (map comment_item tr) more = true -> wf_items (ungroup gs tr) more = true.
+Proof.
+  intros Hg Ht. unfold ungroup. apply wf_items_app_intro; [|exact Ht].
+  induction gs as [|g r IH]; [reflexivity|]. cbn [flat_map].
+  destruct (Hg g (or_introl eq_refl)) as [H1 H2].
+  apply wf_items_app_intro; [|apply IH; intros y Hy; apply Hg; right; exact Hy].
+  apply wf_items_app_intro; [exact H1|]. cbn [wf_items]. rewrite H2. reflexivity.
+Qed.
+
+Definition items_shaped (fmt : option (str -> str -> str)) (its : list item) : Prop :=
+  forall f, In (IField f) its -> fmt_shaped_on fmt f = true.
+
+Theorem wf_a_ws_items c ecmp fmt its more :
+  ind_ok c = true -> wf_items its more = true -> items_shaped fmt its ->
+  wf_items (a_ws_items c ecmp fmt its) more = true.
+Proof.
+  intros Hi Hwf Hs. unfold a_ws_items.
+  pose proof (group_items_wf its [] more Hwf) as Hg. pose proof (group_items_In its []) as HIn.
+  destruct (group_items its []) as [gs tr]. cbn [fst snd] in *. destruct Hg as [Hg Ht].
+  apply wf_items_ungroup; [|exact Ht].
+  intros g' Hg'. apply in_map_iff in Hg'. destruct Hg' as (g & <- & Hin). cbn [fst snd].
+  apply sort_opt_In in Hin. destruct (Hg g Hin) as [H1 [m H2]]. split; [exact H1|].
+  apply (wf_a_ws_field c fmt (snd g) m true Hi H2). apply Hs. apply HIn. exact Hin.
+Qed.
+
+(* ---- blocks: the printed result is a well-formed document ---- *)
+Definition ltext (d : ldocl) : str := flat_map (fun b => text (lblock_tree b)) d.
+Lemma text_ltree d : text (ltree_of d) = ltext d.
+Proof.
+  unfold ltree_of, ltext. rewrite text_node. unfold texts. induction d as [|b r IH]; [reflexivity|].
+  cbn [map flat_map]. rewrite IH. reflexivity.
+Qed.
+Lemma ltext_app a b : ltext (a ++ b) = ltext a ++ ltext b.
+Proof. apply flat_map_app. Qed.
+Lemma ltext_para its : ltext [LPara its] = flat_map item_text its.
+Proof. unfold ltext. cbn [flat_map lblock_tree]. rewrite app_nil_r, text_node. apply texts_item_elems. Qed.
+Lemma ltext_comments cs : ltext (map comment_block cs) = flat_map item_text (map comment_item cs).
+Proof.
+  unfold ltext. induction cs as [|c r IH]; [reflexivity|]. cbn [map flat_map comment_block lblock_tree comment_item item_text].
+  rewrite IH, text_node, texts_comment_elems. reflexivity.
+Qed.
+
+Fixpoint term_comments (cs : list comment) : list comment :=
+  match cs with
+  | [] => []
+  | [c] => [(fst c, true)]
+  | c :: r => c :: term_comments r
+  end.
+Fixpoint merge_last (G : list (list comment * list item)) (cs : list comment) : list (list comment * list item) :=
+  match G with
+  | [] => []
+  | [g] => [(fst g, snd g ++ map comment_item cs)]
+  | g :: r => g :: merge_last r cs
+  end.
+
+Lemma emit_blocks_cons first g r :
+  emit_blocks first (g :: r) = ((if first then [] else [LBlank]) ++ map comment_block (fst g)) ++ [LPara (snd g)] ++ emit_blocks false r.
+Proof. cbn [emit_blocks]. rewrite <- app_assoc. reflexivity. Qed.
+
+Lemma ltext_merge G : forall first cs, G <> [] ->
+  ltext (emit_blocks first G ++ map comment_block cs) = ltext (emit_blocks first (merge_last G cs)).
+Proof.
+  induction G as [|g r IH]; intros first cs Hne; [congruence|].
+  destruct r as [|g2 r2].
+  - cbn [merge_last]. rewrite !emit_blocks_cons. cbn [emit_blocks fst snd]. rewrite !app_nil_r.
+    rewrite !ltext_app, !ltext_para, !ltext_comments, flat_map_app, <- !app_assoc. reflexivity.
+  - change (merge_last (g :: g2 :: r2) cs) with (g :: merge_last (g2 :: r2) cs).
+    rewrite (emit_blocks_cons first g (g2 :: r2)), (emit_blocks_cons first g (merge_last (g2 :: r2) cs)).
+    rewrite <- !app_assoc, !ltext_app. rewrite <- ltext_app, (IH false cs ltac:(discriminate)). reflexivity.
+Qed.
+
+Lemma pairs_comments cs : flat_map item_pairs (map comment_item cs) = [].
+Proof. induction cs as [|c r IH]; [reflexivity|exact IH]. Qed.
+
+Lemma lcontent_merge G : forall first cs, G <> [] ->
+  lcontent (emit_blocks first G ++ map comment_block cs) = lcontent (emit_blocks first (merge_last G cs)).
+Proof.
+  intros first cs Hne. rewrite lcontent_app, lcontent_comments, app_nil_r, !lcontent_emit_blocks.
+  clear first. induction G as [|g r IH]; [congruence|]. destruct r as [|g2 r2].
+  - cbn [merge_last map snd]. rewrite flat_map_app, pairs_comments, app_nil_r. reflexivity.
+  - change (merge_last (g :: g2 :: r2) cs) with (g :: merge_last (g2 :: r2) cs). cbn [map]. f_equal.
+    apply IH. discriminate.
+Qed.
+
+Lemma terminate_doc_app d1 d2 : d2 <> [] -> terminate_doc (d1 ++ d2) = d1 ++ terminate_doc d2.
+Proof.
+  intros Hne. induction d1 as [|b r IH]; [reflexivity|]. cbn [app].
+  assert (E : r ++ d2 <> []) by (destruct r; [exact Hne|discriminate]).
+  destruct (r ++ d2) as [|x y] eqn:Er; [congruence|]. rewrite <- IH. destruct b; reflexivity.
+Qed.
+
+Lemma terminate_doc_comments cs : terminate_doc (map comment_block cs) = map comment_block (term_comments cs).
+Proof.
+  induction cs as [|c r IH]; [reflexivity|]. destruct r as [|c2 r2]; [reflexivity|].
+  change (term_comments (c :: c2 :: r2)) with (c :: term_comments (c2 :: r2)). cbn [map] in *. rewrite <- IH. reflexivity.
+Qed.
+
+Lemma terminate_last_idem its : terminate_last (terminate_last its) = terminate_last its.
+Proof.
+  induction its as [|it r IH]; [reflexivity|]. destruct r as [|it2 r2].
+  - destruct it; reflexivity.
+  - assert (E : terminate_last (it :: it2 :: r2) = it :: terminate_last (it2 :: r2)) by (destruct it; reflexivity).
+    rewrite E. destruct (terminate_last (it2 :: r2)) as [|x y] eqn:Et; [destruct it2; destruct r2; discriminate|].
+    assert (E2 : terminate_last (it :: x :: y) = it :: terminate_last (x :: y)) by (destruct it; reflexivity).
+    rewrite E2, IH. reflexivity.
+Qed.
+
+Lemma terminate_doc_emit G : forall first, (forall g, In g G -> terminate_last (snd g) = snd g) ->
+  terminate_doc (emit_blocks first G) = emit_blocks first G.
+Proof.
+  induction G as [|g r IH]; intros first H; [reflexivity|]. rewrite emit_blocks_cons.
+  destruct r as [|g2 r2].
+  - cbn [emit_blocks]. rewrite app_nil_r, terminate_doc_app by discriminate. cbn [terminate_doc].
+    rewrite (H g (or_introl eq_refl)). reflexivity.
+  - rewrite terminate_doc_app by discriminate. f_equal. rewrite terminate_doc_app by (cbn [emit_blocks]; discriminate).
+    f_equal. apply IH. intros y Hy. apply H. right. exact Hy.
+Qed.
+
+Lemma map_term_comments cs : map comment_item (term_comments cs) = terminate_last (map comment_item cs).
+Proof.
+  induction cs as [|c r IH]; [reflexivity|]. destruct r as [|c2 r2]; [reflexivity|].
+  change (term_comments (c :: c2 :: r2)) with (c :: term_comments (c2 :: r2)). cbn [map] in *. rewrite IH. reflexivity.
+Qed.
+
+Lemma lwf_comments cs : wf_items (map comment_item cs) false = true -> lwf (map comment_block cs) = true.
+Proof.
+  induction cs as [|c r IH]; [reflexivity|]. cbn [map]. rewrite wf_items_cons, lwf_cons. intros H.
+  apply andb_true_iff in H. destruct H as [H1 H2]. rewrite (IH H2), andb_true_r.
+  cbn [comment_block comment_item wf_item] in *. destruct r; exact H1.
+Qed.
+
+Lemma lwf_comments_app cs Y : wf_items (map comment_item cs) true = true -> Y <> [] ->
+  lwf (map comment_block cs ++ Y) = lwf Y.
+Proof.
+  intros H HY. induction cs as [|c r IH]; [reflexivity|]. cbn [map app]. rewrite lwf_cons.
+  cbn [map] in H. rewrite wf_items_cons in H. apply andb_true_iff in H. destruct H as [H1 H2].
+  rewrite (IH H2). cbn [comment_block comment_item wf_item] in *.
+  assert (E : wf_comment (fst c) (snd c) (match map comment_block r ++ Y with [] => false | _ => true end) = true).
+  { destruct (map comment_block r ++ Y) eqn:Ey.
+    - destruct r; [cbn [map app] in Ey; congruence|discriminate].
+    - destruct r; exact H1. }
+  rewrite E. reflexivity.
+Qed.
+
+Definition group_ok (g : list comment * list item) : Prop :=
+  wf_items (map comment_item (fst g)) true = true /\ wf_items (snd g) true = true.
+
+Lemma lwf_emit G : forall first, (forall g, In g G -> group_ok g) -> lwf (emit_blocks first G) = true.
+Proof.
+  induction G as [|g r IH]; intros first H; [reflexivity|].
+  destruct (H g (or_introl eq_refl)) as [H1 H2].
+  assert (Hr : lwf (emit_blocks false r) = true) by (apply IH; intros y Hy; apply H; right; exact Hy).
+  assert (Hp : lwf (map comment_block (fst g) ++ LPara (snd g) :: emit_blocks false r) = true).
+  { rewrite (lwf_comments_app _ _ H1) by discriminate. rewrite lwf_cons, Hr, andb_true_r.
+    destruct r as [|g2 r2]; cbn [emit_blocks app].
+    - rewrite andb_true_r. apply (wf_items_mono _ true false H2). intros; reflexivity.
+    - rewrite H2. reflexivity. }
+  cbn [emit_blocks]. destruct first; cbn [app]; [exact Hp|]. rewrite lwf_cons. exact Hp.
+Qed.
+
+Lemma group_blocks_wf l : forall cur, lwf l = true ->
+  wf_items (map comment_item cur) (match l with [] => false | _ => true end) = true ->
+  (forall g, In g (fst (group_blocks l cur)) ->
+     wf_items (map comment_item (fst g)) true = true /\ exists m, wf_items (snd g) m = true) /\
+  wf_items (map comment_item (snd (group_blocks l cur))) false = true.
+Proof.
+  induction l as [|b r IH]; intros cur Hl Hc.
+  - cbn [group_blocks fst snd]. split; [intros g []|exact Hc].
+  - rewrite lwf_cons in Hl. apply andb_true_iff in Hl. destruct Hl as [Hb Hr].
+    destruct b as [|c nl|its]; cbn [group_blocks].
+    + apply IH; [exact Hr|]. apply (wf_items_mono _ true _ Hc). intros; reflexivity.
+    + apply IH; [exact Hr|]. rewrite map_app. apply wf_items_app_intro; [exact Hc|].
+      cbn [map comment_item fst snd wf_items]. rewrite Hb. reflexivity.
+    + apply andb_true_iff in Hb. destruct Hb as [Hi _].
+      assert (H0 : wf_items (map comment_item []) (match r with [] => false | _ => true end) = true) by reflexivity.
+      specialize (IH [] Hr H0). destruct (group_blocks r []) as [gs tr]. cbn [fst snd] in *. destruct IH as [IH1 IH2].
+      split; [|exact IH2]. intros g [<-|Hg]; [|apply IH1; exact Hg]. cbn [fst snd]. split; [exact Hc|eexists; exact Hi].
+Qed.
+
+(* the paragraph function keeps paragraphs well-formed *)
+Definition pf_keeps_wf (pf : list item -> list item) (l : ldocl) : Prop :=
+  forall its m, In (LPara its) l -> wf_items its m = true -> exists m', wf_items (pf its) m' = true.
+
+Theorem a_ws_doc_reread pcmp pf l : lwf l = true -> pf_keeps_wf pf l ->
+  exists t', from_str (text (ltree_of (a_ws_doc pcmp pf l))) = Ok t' /\
+             doc_items t' = nonempty_paras (lcontent (a_ws_doc pcmp pf l)).
+Proof.
+  intros Hl Hpf. unfold a_ws_doc.
+  pose proof (group_blocks_wf l [] Hl) as Hg. pose proof (group_blocks_In l []) as HIn.
+  destruct (group_blocks l []) as [gs tr]. cbn [fst snd] in *.
+  assert (H0 : wf_items (map comment_item []) (match l with [] => false | _ => true end) = true) by reflexivity.
+  destruct (Hg H0) as [Hgs Htr]. clear Hg H0.
+  set (G := map (fun g => (fst g, terminate_last (pf (snd g)))) (sort_opt (option_map on_para pcmp) gs)).
+  assert (HG : forall g, In g G -> group_ok g /\ terminate_last (snd g) = snd g).
+  { intros g' Hg'. unfold G in Hg'. apply in_map_iff in Hg'. destruct Hg' as (g & <- & Hin). cbn [fst snd].
+    apply sort_opt_In in Hin. destruct (Hgs g Hin) as [H1 [m H2]].
+    destruct (Hpf (snd g) m (HIn g Hin) H2) as [m' H3].
+    split; [split; [exact H1|apply (wf_terminate_last _ _ H3)]|apply terminate_last_idem]. }
+  (* the same text as a live document in which the comment lines after the last paragraph belong to it *)
+  assert (Hlive : exists R', lwf R' = true /\
+            ltext R' = ltext (terminate_doc (emit_blocks true G ++ map comment_block tr)) /\
+            lcontent R' = lcontent (terminate_doc (emit_blocks true G ++ map comment_block tr))).
+  { destruct tr as [|c0 tr0].
+    - cbn [map]. rewrite app_nil_r. exists (emit_blocks true G).
+      rewrite terminate_doc_emit by (intros g Hg; apply (HG g Hg)).
+      split; [apply lwf_emit; intros g Hg; apply (HG g Hg)|split; reflexivity].
+    - rewrite terminate_doc_app by discriminate. rewrite terminate_doc_comments.
+      assert (Ht : wf_items (map comment_item (term_comments (c0 :: tr0))) true = true)
+        by (rewrite map_term_comments; apply (wf_terminate_last _ _ Htr)).
+      destruct G as [|g0 G0] eqn:EG.
+      + exists (map comment_block (term_comments (c0 :: tr0))). cbn [emit_blocks app].
+        split; [|split; reflexivity]. apply lwf_comments. apply (wf_items_mono _ true false Ht). intros; reflexivity.
+      + exists (emit_blocks true (merge_last (g0 :: G0) (term_comments (c0 :: tr0)))).
+        rewrite <- ltext_merge, <- lcontent_merge by discriminate. split; [|split; reflexivity].
+        apply lwf_emit. rewrite <- EG in *. clear EG.
+        assert (Hm : forall G1, (forall g, In g G1 -> group_ok g) ->
+                     forall g, In g (merge_last G1 (term_comments (c0 :: tr0))) -> group_ok g).
+        { induction G1 as [|g1 r1 IH1]; intros Hok g Hin; [contradiction|].
+          destruct r1 as [|g2 r2].
+          - cbn [merge_last] in Hin. destruct Hin as [<-|[]]. destruct (Hok g1 (or_introl eq_refl)) as [A B].
+            split; [exact A|]. cbn [snd]. apply wf_items_app_intro; assumption.
+          - change (merge_last (g1 :: g2 :: r2) (term_comments (c0 :: tr0))) with (g1 :: merge_last (g2 :: r2) (term_comments (c0 :: tr0))) in Hin.
+            destruct Hin as [<-|Hin]; [apply Hok; left; reflexivity|].
+            apply IH1; [intros y Hy; apply Hok; right; exact Hy|exact Hin]. }
+        apply Hm. intros g Hg. apply (HG g Hg). }
+  destruct Hlive as (R' & Hwf & Ht & Hc).
+  destruct (live_reread R' Hwf) as (t' & E1 & E2).
+  exists t'. rewrite text_ltree, <- Ht, <- text_ltree. split; [exact E1|].
+  rewrite E2, doc_items_ltree_of, Hc. reflexivity.
+Qed.
